@@ -167,6 +167,9 @@ func (p *Path) pureScalar(fn *ssa.Function, args []Value) bool {
 	allConst := true
 	for _, a := range args {
 		t, ok := a.(*Term)
+		if bo, isB := a.(BytesOf); isB {
+			t, ok = bo.s, true
+		}
 		if !ok {
 			return false
 		}
@@ -193,9 +196,23 @@ func (p *Path) runFrameOrSummarise(fr *frame, fn *ssa.Function, args []Value) (r
 			p.stack = p.stack[:stack]
 			var ts []*Term
 			for _, a := range args {
-				ts = append(ts, a.(*Term))
+				if bo, isB := a.(BytesOf); isB {
+					ts = append(ts, bo.s)
+				} else {
+					ts = append(ts, a.(*Term))
+				}
 			}
 			b := fn.Signature.Results().At(0).Type().Underlying().(*types.Basic)
+			if strings.Contains(pa.msg, " os.") || strings.Contains(pa.msg, "(*os.") || strings.Contains(pa.msg, " io.") || strings.Contains(pa.msg, "make([]byte)") {
+				// the function consults the environment (file system): its result is a free value of its type
+				v := p.freshVar("env_"+fn.Name(), sortOfBasic(b))
+				p.registerNondet(fmt.Sprintf("env:%s#%d", fn.Name(), p.fresh), v)
+				p.effects = append(p.effects, "env:"+fn.Name())
+				p.effectArgs = append(p.effectArgs, ts)
+				p.effectFail = append(p.effectFail, tFalse)
+				res = v
+				return
+			}
 			registerAuto(fn)
 			res = mkUF("auto:"+fn.Name(), sortOfBasic(b), ts...)
 		}
